@@ -101,6 +101,16 @@ def wire_values(typed):
     return out
 
 
+IFACE_KEYS = ('ip_address', 'network_mask', 'gateway_address', 'dns_primary', 'dns_secondary')
+
+
+def enc_ifaceaddrs(m):
+    """TCP/IP Interface Object attribute 5 (Vol 2 5-4.3.2.5): five UDINT addresses then the domain name as a
+    STRING (UINT length, octets, pad to even).  Each UDINT is the address 'a.b.c.d' read as the integer
+    a<<24|b<<16|c<<8|d, little-endian on the wire like every CIP UDINT."""
+    return b''.join(struct.pack('<I', ip_int(m[k])) for k in IFACE_KEYS) + rc.enc_value('STRING', m['domain_name'])
+
+
 # ------------------------------------------------------------------------------------------------
 # EPATH variants
 
